@@ -176,8 +176,9 @@ namespace sweep
                             fn = e.fn;
             if (!fn)
                 continue;
-            const bool is64 = !strcmp(j.type, "f64");
+            const bool is64 = !strcmp(j.type, "f64") || !strcmp(j.type, "i64") || !strcmp(j.type, "u64");
             const bool isint = j.type[0] == 'i' || j.type[0] == 'u';
+            const bool src_signed = j.type[0] == 'i';
             const std::string mode = j.mode;
             const Ref* ref = find_ref(j.ref);
             const bool want_pos = strchr(j.signs, '+') != nullptr, want_neg = strchr(j.signs, '-') != nullptr;
@@ -247,10 +248,19 @@ namespace sweep
                                 s = same_fp32(vd::ld<float>(o.bytes + 4 * i), ref->f(x)) ? 0 : 1;
                             else if (mode == "eqi")
                             {
-                                if (std::isnan(x) || std::fabs(x) >= 2147483648.0f)
-                                    continue;
-                                int32_t e = !strcmp(j.ref, "trunc") ? (int32_t)x : (int32_t)lrintf(x);
-                                s = vd::ld<int32_t>(o.bytes + 4 * i) == e ? 0 : 1;
+                                if (!strcmp(j.ref, "truncu"))
+                                {
+                                    if (std::isnan(x) || !(x > -1.0f) || x >= 4294967296.0f)
+                                        continue;
+                                    s = vd::ld<uint32_t>(o.bytes + 4 * i) == (uint32_t)x ? 0 : 1;
+                                }
+                                else
+                                {
+                                    if (std::isnan(x) || std::fabs(x) >= 2147483648.0f)
+                                        continue;
+                                    int32_t e = !strcmp(j.ref, "trunc") ? (int32_t)x : (int32_t)lrintf(x);
+                                    s = vd::ld<int32_t>(o.bytes + 4 * i) == e ? 0 : 1;
+                                }
                             }
                             else if (mode == "odd" || mode == "even")
                             {
@@ -266,7 +276,35 @@ namespace sweep
                     else
                     {
                         uint64_t xb = base + (uint64_t)i * step;
+                        if (isint)
+                        {
+                            double r = vd::ld<double>(o.bytes + 8 * i);
+                            double e = src_signed ? (double)(int64_t)xb : (double)xb;
+                            s = (mode == "cvi" && !(r == e)) ? 1 : 0;
+                            if (s > sc)
+                                sc = s, sl = i;
+                            continue;
+                        }
                         double x = as_fp<double>(xb);
+                        if (mode == "eqi")
+                        {
+                            if (!strcmp(j.ref, "truncu"))
+                            {
+                                if (std::isnan(x) || !(x > -1.0) || x >= 18446744073709551616.0)
+                                    continue;
+                                s = vd::ld<uint64_t>(o.bytes + 8 * i) == (uint64_t)x ? 0 : 1;
+                            }
+                            else
+                            {
+                                if (std::isnan(x) || std::fabs(x) >= 9223372036854775808.0)
+                                    continue;
+                                int64_t e = !strcmp(j.ref, "trunc") ? (int64_t)x : (int64_t)llrint(x);
+                                s = vd::ld<int64_t>(o.bytes + 8 * i) == e ? 0 : 1;
+                            }
+                            if (s > sc)
+                                sc = s, sl = i;
+                            continue;
+                        }
                         uint64_t ex = (xb >> 52) & 0x7FF;
                         bool special = ex == 0x7FF || (ex == 0 && (xb & 0xFFFFFFFFFFFFFull));
                         if (mode == "ulp" || mode == "ulp1")
@@ -319,6 +357,8 @@ namespace sweep
             auto consider = [&](uint64_t base, uint64_t step, double sc, int lane, bool stuck)
             {
                 uint32_t bucket = is64 ? (uint32_t)(base >> 52) : (uint32_t)((base & 0xFFFFFFFFull) >> 23);
+                if (isint && is64)
+                    bucket = (uint32_t)(base >> 63) * 64 + (uint32_t)(64 - __builtin_clzll(base | 1));   // sign and bit length
                 Best& b = best[bucket];
                 if (sc > b.score || (stuck && !b.stuck))
                 {
@@ -418,6 +458,21 @@ namespace sweep
                         uint64_t span = j.hi - j.lo + 1;
                         uint64_t mag = j.lo + (span ? u % span : 0);
                         uint64_t k = splitmix(st);
+                        if (isint)
+                        {
+                            // integers of every bit length (rounding happens beyond 53 bits), both signs, rows of neighbours
+                            base = u >> ((k >> 16) % 64);
+                            if (src_signed && ((k >> 5) & 1))
+                                base = (uint64_t)(-(int64_t)base);
+                            step = 1ull << ((k & 3) == 0 ? 0 : (k >> 8) % 12);
+                            do_row(base, step);
+                            swept += nl;
+                            bool skip0;
+                            auto sc0 = score_row(base, step, skip0);
+                            if (sc0.first > 0)
+                                consider(base, step, sc0.first, sc0.second, false);
+                            continue;
+                        }
                         step = 1ull << ((k & 3) == 0 ? 0 : (k >> 8) % 40);
                         bool neg = want_neg && (!want_pos || ((k >> 4) & 1));
                         if (mag + 8 * step > 0x7FEFFFFFFFFFFFFFull)
@@ -436,8 +491,8 @@ namespace sweep
                 }
             }
             for (auto& kv : best)
-                fprintf(out, "{\"op\":\"%s\",\"t\":\"%s\",\"kind\":\"%s\",\"arch\":\"%s\",\"mode\":\"%s\",\"base\":\"%llx\",\"step\":\"%llx\",\"nl\":%d,\"score\":%.6g,\"lane\":%d,\"stuck\":%d}\n",
-                        j.op, j.type, j.kind, j.arch, j.mode, (unsigned long long)kv.second.base, (unsigned long long)kv.second.step, nl, kv.second.score > 1e29 ? 1e30 : kv.second.score, kv.second.lane, kv.second.stuck ? 1 : 0);
+                fprintf(out, "{\"bucket\":%u,\"op\":\"%s\",\"t\":\"%s\",\"kind\":\"%s\",\"arch\":\"%s\",\"mode\":\"%s\",\"base\":\"%llx\",\"step\":\"%llx\",\"nl\":%d,\"score\":%.6g,\"lane\":%d,\"stuck\":%d}\n",
+                        kv.first, j.op, j.type, j.kind, j.arch, j.mode, (unsigned long long)kv.second.base, (unsigned long long)kv.second.step, nl, kv.second.score > 1e29 ? 1e30 : kv.second.score, kv.second.lane, kv.second.stuck ? 1 : 0);
             fprintf(out, "{\"summary\":1,\"op\":\"%s\",\"t\":\"%s\",\"kind\":\"%s\",\"arch\":\"%s\",\"mode\":\"%s\",\"swept\":%llu,\"stuck\":%llu}\n", j.op, j.type, j.kind, j.arch, j.mode, swept, stuckrows);
             fflush(out);
         }
